@@ -43,6 +43,11 @@ def gen_script(r, nid):
                 pre = d == "a" and r.random() < 0.15
                 ids[nid[0]] = (d, pre, k)
                 steps[k].append(("s", nid[0], d))
+    # a task that created processes waits for them: when the main program exits the run is over and its descendants are
+    # killed by the runner (by design), so an unfinished descendant would say nothing about enforcement
+    for k in steps:
+        if any(s[0] in ("fork", "vfork", "thread") for s in steps[k]) and kinds.get(k) != "vfork":
+            steps[k].append(("wait", 0, "-"))
     text = ""
     for k in range(ntask):
         if k in kinds:
